@@ -67,6 +67,10 @@ STRENGTHENED = {
  "C17-7": "missed at first (state and reasons always in one printer group): split-group contexts",
  "C18-7": "missed at first (the peer always wrote 'Content-Type: application/ipp'): five spellings",
  "C20-7": "missed at first (no raw octets spelling a hex literal): encoded-looking octets among the atoms",
+ "C09-8": "missed at first (mandatory names always carried their RFC syntax): the names with another syntax among the additions",
+ "C16-8": "missed at first (parsed responses in the sweep had no attribute groups): three group layouts, status word must come through untouched",
+ "C19-8": "missed at first (traversal used next() only): nth / skip / step_by / count on a partly consumed traversal",
+ "C20-8": "missed at first (no keyword spelling a number or a boolean): texts spelling another kind among the string witnesses",
  "C18-1": "missed by C18 at first (caught by C17 from the start); C18 now scripts all 10 blocking reasons, scalar and inside a set",
 }
 def main():
